@@ -1,0 +1,255 @@
+//! Verification hooks: compiled only with `--cfg john_yu_sm9_core_verif`.
+//!
+//! Re-exports the internal extension-field tower (Fq4, Fq12) behind opaque wrappers and
+//! wraps the private powering / final-exponentiation / Miller-loop routines so that an
+//! external harness can compare them with a reference model. Nothing here is reachable
+//! (or even compiled) without the cfg flag, and no existing item is changed.
+use crate::{
+    fields::{self, FieldElement},
+    pairings, Fq, Fq2, G2Prepared, Gt, G1, G2,
+};
+use num_traits::Zero;
+
+/// Element of Fq4 = Fq2[v]/(v^2 - u).
+#[derive(Copy, Clone, Debug, PartialEq, Eq)]
+pub struct T4(pub(crate) fields::Fq4);
+
+/// Element of Fq12 = Fq4[w]/(w^3 - v).
+#[derive(Copy, Clone, Debug, PartialEq, Eq)]
+pub struct T12(pub(crate) fields::Fq12);
+
+impl T4 {
+    pub fn new(c0: Fq2, c1: Fq2) -> Self {
+        T4(fields::Fq4::new(c0.0, c1.0))
+    }
+    pub fn c0(&self) -> Fq2 {
+        Fq2(self.0.c0)
+    }
+    pub fn c1(&self) -> Fq2 {
+        Fq2(self.0.c1)
+    }
+    pub fn is_zero(&self) -> bool {
+        self.0.is_zero()
+    }
+    pub fn add(&self, o: &T4) -> T4 {
+        T4(self.0 + o.0)
+    }
+    pub fn sub(&self, o: &T4) -> T4 {
+        T4(self.0 - o.0)
+    }
+    pub fn neg(&self) -> T4 {
+        T4(-self.0)
+    }
+    pub fn double(&self) -> T4 {
+        T4(self.0.double())
+    }
+    pub fn triple(&self) -> T4 {
+        T4(self.0.triple())
+    }
+    pub fn mul(&self, o: &T4) -> T4 {
+        T4(self.0 * o.0)
+    }
+    /// `self * o`, specified only for `o.c0 == 0`.
+    pub fn mul_1(&self, o: &T4) -> T4 {
+        T4(self.0.mul_1(&o.0))
+    }
+    pub fn squared(&self) -> T4 {
+        T4(self.0.squared())
+    }
+    pub fn inverse(&self) -> Option<T4> {
+        self.0.inverse().map(T4)
+    }
+    /// Internal Frobenius codes 10, 11, 12, 21, 22, 30, 31, 32 (anything else is unimplemented!()).
+    pub fn frobenius(&self, code: usize) -> T4 {
+        T4(self.0.frobenius_map(code))
+    }
+    pub fn scale(&self, by: &Fq2) -> T4 {
+        T4(self.0.scale(&by.0))
+    }
+    pub fn scale_fq(&self, by: &Fq) -> T4 {
+        T4(self.0.scale_fq(&by.0))
+    }
+    pub fn mul_by_nonresidue(&self) -> T4 {
+        T4(self.0.mul_by_nonresidue())
+    }
+    pub fn unitary_inverse(&self) -> T4 {
+        T4(self.0.unitary_inverse())
+    }
+    pub fn to_slice(&self) -> [u8; 128] {
+        self.0.to_slice()
+    }
+}
+
+impl T12 {
+    pub fn new(c0: T4, c1: T4, c2: T4) -> Self {
+        T12(fields::Fq12::new(c0.0, c1.0, c2.0))
+    }
+    pub fn c0(&self) -> T4 {
+        T4(self.0.c0)
+    }
+    pub fn c1(&self) -> T4 {
+        T4(self.0.c1)
+    }
+    pub fn c2(&self) -> T4 {
+        T4(self.0.c2)
+    }
+    pub fn is_zero(&self) -> bool {
+        self.0.is_zero()
+    }
+    pub fn add(&self, o: &T12) -> T12 {
+        T12(self.0 + o.0)
+    }
+    pub fn sub(&self, o: &T12) -> T12 {
+        T12(self.0 - o.0)
+    }
+    pub fn neg(&self) -> T12 {
+        T12(-self.0)
+    }
+    pub fn double(&self) -> T12 {
+        T12(self.0.double())
+    }
+    pub fn triple(&self) -> T12 {
+        T12(self.0.triple())
+    }
+    pub fn mul(&self, o: &T12) -> T12 {
+        T12(self.0 * o.0)
+    }
+    /// `self * o`, specified only for `o.c1 == 0` and `o.c2 == (0, *)`.
+    pub fn mul_015(&self, o: &T12) -> T12 {
+        T12(self.0.mul_015(&o.0))
+    }
+    pub fn squared(&self) -> T12 {
+        T12(self.0.squared())
+    }
+    pub fn inverse(&self) -> Option<T12> {
+        self.0.inverse().map(T12)
+    }
+    /// Frobenius powers 1, 2, 3, 6 (anything else is unimplemented!()).
+    pub fn frobenius(&self, power: usize) -> T12 {
+        T12(self.0.frobenius_map(power))
+    }
+    pub fn scale(&self, by: &T4) -> T12 {
+        T12(self.0.scale(&by.0))
+    }
+    pub fn mul_by_nonresidue(&self) -> T12 {
+        T12(self.0.mul_by_nonresidue())
+    }
+    /// The private `Fq12::pow(u128)` used by the final-exponentiation addition chains.
+    pub fn pow_u128(&self, exp: u128) -> T12 {
+        T12(pairings::verif::pow_u128(&self.0, exp))
+    }
+    /// Exponentiation by an Fr scalar (what `Gt::pow` uses).
+    pub fn pow_fr(&self, exp: crate::Fr) -> T12 {
+        T12(self.0.pow(exp.0))
+    }
+    pub fn first_chunk(&self) -> Option<T12> {
+        pairings::verif::first_chunk(&self.0).map(T12)
+    }
+    /// Final exponentiation used by `pairing()`.
+    pub fn final_exponentiation(&self) -> Option<T12> {
+        self.0.final_exponentiation().map(T12)
+    }
+    /// Final exponentiation used by `fast_pairing()` / `G2Prepared::pairing()`.
+    pub fn final_exp(&self) -> Option<T12> {
+        self.0.final_exp().map(T12)
+    }
+    pub fn to_slice(&self) -> [u8; 384] {
+        self.0.to_slice()
+    }
+    pub fn into_gt(self) -> Gt {
+        Gt(self.0)
+    }
+    pub fn from_gt(g: Gt) -> T12 {
+        T12(g.0)
+    }
+}
+
+pub fn fq_squared(a: &Fq) -> Fq {
+    Fq(a.0.squared())
+}
+pub fn fq_double(a: &Fq) -> Fq {
+    Fq(a.0.double())
+}
+pub fn fq_triple(a: &Fq) -> Fq {
+    Fq(a.0.triple())
+}
+pub fn fq_div2(a: &Fq) -> Fq {
+    Fq(a.0.div2())
+}
+pub fn fr_squared(a: &crate::Fr) -> crate::Fr {
+    crate::Fr(a.0.squared())
+}
+pub fn fr_double(a: &crate::Fr) -> crate::Fr {
+    crate::Fr(a.0.double())
+}
+/// `sum_i a[i] * b[i]` through the interleaved sum-of-products routine (2 terms).
+pub fn fq_sum_of_products2(a: &[Fq; 2], b: &[Fq; 2]) -> Fq {
+    Fq(fields::Fq::sum_of_products(&[a[0].0, a[1].0], &[b[0].0, b[1].0]))
+}
+/// `sum_i a[i] * b[i]` through the interleaved sum-of-products routine (4 terms).
+pub fn fq_sum_of_products4(a: &[Fq; 4], b: &[Fq; 4]) -> Fq {
+    Fq(fields::Fq::sum_of_products(
+        &[a[0].0, a[1].0, a[2].0, a[3].0],
+        &[b[0].0, b[1].0, b[2].0, b[3].0],
+    ))
+}
+/// The raw (Montgomery) limbs of an Fq value, least significant first.
+pub fn fq_raw_limbs(a: &Fq) -> [u64; 4] {
+    [a.0[0], a.0[1], a.0[2], a.0[3]]
+}
+/// The raw (Montgomery) limbs of an Fr value, least significant first.
+pub fn fr_raw_limbs(a: &crate::Fr) -> [u64; 4] {
+    [a.0[0], a.0[1], a.0[2], a.0[3]]
+}
+
+pub fn fq2_squared(a: &Fq2) -> Fq2 {
+    Fq2(a.0.squared())
+}
+pub fn fq2_inverse(a: &Fq2) -> Option<Fq2> {
+    a.0.inverse().map(Fq2)
+}
+pub fn fq2_scale(a: &Fq2, by: &Fq) -> Fq2 {
+    Fq2(a.0.scale(&by.0))
+}
+pub fn fq2_div2(a: &Fq2) -> Fq2 {
+    Fq2(a.0.div2())
+}
+pub fn fq2_double(a: &Fq2) -> Fq2 {
+    Fq2(a.0.double())
+}
+pub fn fq2_triple(a: &Fq2) -> Fq2 {
+    Fq2(a.0.triple())
+}
+pub fn fq2_mul_by_nonresidue(a: &Fq2) -> Fq2 {
+    Fq2(a.0.mul_by_nonresidue())
+}
+pub fn fq2_unitary_inverse(a: &Fq2) -> Fq2 {
+    Fq2(a.0.unitary_inverse())
+}
+
+/// Miller loop of `pairing()` (Jacobian line functions). `pairing()` calls it on
+/// affine-normalised (z = 1) arguments.
+pub fn miller_loop_jacobian(q: &G2, p: &G1) -> T12 {
+    T12(q.0.miller_loop(&p.0))
+}
+/// Miller loop of `fast_pairing()` / `G2Prepared::pairing()` (precomputed line coefficients).
+pub fn miller_loop_prepared(q: &G2Prepared, p: &G1) -> T12 {
+    T12(q.miller_loop(&p.0))
+}
+/// `G2Prepared::from(groups::G2)` without the normalisation done by the public `From<G2>`.
+pub fn prepare_raw(q: &G2) -> G2Prepared {
+    G2Prepared::from(q.0)
+}
+/// Number of cached line coefficients in a prepared value.
+pub fn prepared_len(q: &G2Prepared) -> usize {
+    pairings::verif::prepared_len(q)
+}
+/// Point doubling as used inside scalar multiplication and the Miller loops.
+pub fn g1_double(p: &G1) -> G1 {
+    use crate::groups::GroupElement;
+    G1(p.0.double())
+}
+pub fn g2_double(p: &G2) -> G2 {
+    use crate::groups::GroupElement;
+    G2(p.0.double())
+}
